@@ -161,6 +161,7 @@ func (s *h) Observe() *seqmc.Fail {
 }
 
 func main() {
+	ev.GuardFor("C11")
 	r := ev.Start("C11")
 	u := ev.Pick(r, 4, 5)
 	res := seqmc.Explore(r, seqmc.Config{Name: "bimap", New: func() seqmc.Sys {
